@@ -23,6 +23,19 @@ class Overflow(Exception):
     pass
 
 
+class Unk(tuple):
+    """an interval that owes its width to a construct the domain does not model (an array element, a foreign call):
+    an out-of-range result that depends on it is *undecided*, not a violation"""
+
+
+def unk(iv=None):
+    return Unk(iv if iv is not None else (0, U128))
+
+
+def tainted(*ivs):
+    return any(isinstance(i, Unk) for i in ivs)
+
+
 class Interp:
     def __init__(self, prog, P, fn):
         self.prog, self.P = prog, P
@@ -105,22 +118,22 @@ class Interp:
             if op == "Add":
                 r = (a[0] + b[0], a[1] + b[1])
                 if r[1] > U128:
-                    self.problems.append(("add", t, r))
+                    self.problems.append(("?add" if tainted(a, b) else "add", t, r))
                     r = (0, U128)
-                return r
+                return unk(r) if tainted(a, b) else r
             if op == "Mul":
                 r = (a[0] * b[0], a[1] * b[1])
                 if r[1] > U128:
-                    self.problems.append(("mul", t, r))
+                    self.problems.append(("?mul" if tainted(a, b) else "mul", t, r))
                     r = (0, U128)
-                return r
+                return unk(r) if tainted(a, b) else r
             if op == "Sub":
                 lo, hi = a[0] - b[1], a[1] - b[0]
                 if lo < 0:
                     if self.rel_holds(rels, strip(t[2]), strip(t[3])):
                         lo = 0
                     else:
-                        self.problems.append(("sub", t, (lo, hi)))
+                        self.problems.append(("?sub" if tainted(a, b) else "sub", t, (lo, hi)))
                         lo = 0
                 return (lo, max(hi, 0))
             if op == "Rem":
@@ -138,7 +151,10 @@ class Interp:
             if op == "Shl":
                 if b[0] == b[1] and (a[1] << b[0]) <= U128:
                     return (a[0] << b[0], a[1] << b[0])
-                return (0, U128)
+                if b[0] == b[1] and a[1] < U128:
+                    # a left shift drops the bits it pushes out without any check, in every build profile
+                    self.problems.append(("?shl" if tainted(a, b) else "shl", t, (a[0] << b[0], a[1] << b[0])))
+                return unk() if tainted(a, b) else (0, U128)
             if op == "BitAnd":
                 return (0, min(a[1], b[1]))
             if op in ("Eq", "Ne", "Lt", "Le", "Gt", "Ge"):
@@ -191,8 +207,8 @@ class Interp:
                     g = gs[0]
                     env2 = {i + 1: self.iv(a, env, rels, fn) for i, a in enumerate(t[2])}
                     return self.iv(g.terms.ret, env2, frozenset(), g)
-            return (0, U128)
-        return (0, U128)
+            return unk()
+        return unk()
 
     def decide(self, c, env, rels, fn):
         if not (isinstance(c, tuple) and c[0] == "bin" and c[1] in ("Eq", "Ne", "Lt", "Le", "Gt", "Ge")):
@@ -257,6 +273,17 @@ class Interp:
             if it == 6:
                 cur = (0, U128)
                 memo[mk] = cur
+        # side conditions of the loop body at the fixpoint (the passes above discarded theirs)
+        done = getattr(self, "_mu_checked", None)
+        if done is None:
+            done = self._mu_checked = set()
+        if mk not in done:
+            done.add(mk)
+            saved = len(self.problems)
+            for u in te.mu_update.get(key, []):
+                self.iv(u, env, frozenset(), fn)
+            # kept apart: an enclosing loop's fixpoint passes discard what they find
+            self.sticky = getattr(self, "sticky", []) + self.problems[saved:]
         return memo[mk]
 
 
@@ -276,15 +303,26 @@ def run(prog):
     if len(primes) < 3:
         raise CheckerError("constants::primes not found")
     bodies = ff_bodies(prog)
-    for pname, P in sorted(primes.items()):
+    # FiniteField is generic in its modulus.  The additive code, (a + b) % P on residues, stays inside u128 exactly for
+    # P <= 2^127; the other operations must support the moduli addition supports (sibling agreement), so the bodies are
+    # also interpreted for the largest such modulus.
+    todo = sorted(primes.items()) + [("ANY_P_UP_TO_2^127", (1 << 127) - 1)]
+    for pname, P in todo:
         for nm, fn in bodies.items():
             it = Interp(prog, P, fn)
             env = {}
             it.iv(fn.terms.ret, env, frozenset(), fn)
             key = "%s:%s@%s" % (fn.npath, nm, pname)
-            if it.problems:
+            it.problems = it.problems + [p for p in getattr(it, "sticky", []) if p not in it.problems]
+            definite = [p for p in it.problems if not p[0].startswith("?")]
+            if it.problems and not definite:
                 kind, t, r = it.problems[0]
-                what = {"mul": "product", "add": "sum", "sub": "difference"}[kind]
+                out.append(inst("NB", key, UNDECIDED, fn, None,
+                                "the range of %s depends on a value the interval domain does not model (an array element, a "
+                                "foreign call): not decided for P = %s" % (show(t)[:80], pname)))
+            elif definite:
+                kind, t, r = definite[0]
+                what = {"mul": "product", "add": "sum", "sub": "difference", "shl": "left shift"}[kind]
                 out.append(inst("NB", key, VIOLATION, fn, None,
                                 "for P = %s (%d bits) the %s %s ranges over [%d, 2^%d]: outside u128 — overflow panic in "
                                 "debug builds, wrong residue in release builds"
